@@ -396,6 +396,8 @@ def _is_boolish(s: S, depth=0) -> bool:
         return False
     if s.op in BOOL_LEAF_OPS:
         return True
+    if s.op in ("+", "*"):
+        return _is_boolish(s.args[0], depth + 1) or _is_boolish(s.args[1], depth + 1)
     if s.op in ("phi", "ifexp"):
         return _is_boolish(s.args[1], depth + 1) and _is_boolish(s.args[2], depth + 1)
     if s.op in ("store", "sub", "loop"):
@@ -456,7 +458,7 @@ def boolwalk(root: S, bool_cells: Iterable[str] = ()) -> List[Leaf]:
             for i, k in enumerate(kids):
                 go(k, sign, path + ((s.id, e, i),), reduced, part, guards, d)
             return
-        if o in ("|", "or") or fn == "torch.logical_or" or (o == "meth" and a[1] in ("logical_or",)) or (o == "+" and _is_boolish(a[0]) and _is_boolish(a[1])):
+        if o in ("|", "or") or fn == "torch.logical_or" or (o == "meth" and a[1] in ("logical_or",)) or (o == "+" and (_is_boolish(a[0]) or _is_boolish(a[1]))):
             kids = list(a) if o in ("|", "or", "+") else ([a[0], a[2]] if o == "meth" else list(a[1:3]))
             e = eff("or", sign)
             for i, k in enumerate(kids):
@@ -494,7 +496,11 @@ def boolwalk(root: S, bool_cells: Iterable[str] = ()) -> List[Leaf]:
             return go(a[0], sign, path, reduced, part + (("idx", norm(a[1])),), guards, d)
         if o == "store":
             # old with columns `idx` replaced by val
-            go(a[0], sign, path, reduced, part + (("kept", norm(a[1])),), guards, d)
+            nidx = norm(a[1])
+            if any(p[0] == "kept" and p[1] is nidx for p in part):
+                # these columns are overwritten by an enclosing store with the same index: dead value
+                return go(a[0], sign, path, reduced, part, guards, d)
+            go(a[0], sign, path, reduced, part + (("kept", nidx),), guards, d)
             v = a[2]
             if is_const(v):
                 out.append(Leaf(v, sign, path, reduced, part + (("set", norm(a[1])),), guards))
@@ -537,6 +543,10 @@ def boolwalk(root: S, bool_cells: Iterable[str] = ()) -> List[Leaf]:
         if fn in ("torch.any", "torch.all") and len(a) >= 2:
             e = eff("or" if fn.endswith("any") else "and", sign)
             return go(a[1], sign, path + ((s.id, e, 0),), True, part, guards, d)
+        if o == "meth" and a[1] in ("masked_fill", "masked_fill_") and len(a) == 4 and is_const(a[3]) and bool(a[3].args[0]):
+            base_v = kleene(a[0], lambda n_: None)
+            if base_v is False:  # zeros.masked_fill(cond, 1)  ==  cond
+                return go(a[2], sign, path, reduced, part, guards, d)
         if o == "meth" and a[1] in ("scatter", "scatter_", "index_fill", "index_fill_", "masked_fill", "masked_fill_") and len(a) >= 4:
             # base.scatter(dim, idx, const): base with selected entries forced to const
             val = a[-1]
@@ -552,6 +562,15 @@ def boolwalk(root: S, bool_cells: Iterable[str] = ()) -> List[Leaf]:
                 selnode = mk("selected", *[norm(x) for x in sel if isinstance(x, S)])
                 out.append(Leaf(selnode, (-sign if not forced else sign), path + ((s.id, e, 1),), reduced, part, guards))
                 return
+        if o == "meth" and a[1] in ("scatter", "scatter_") and len(a) >= 5:
+            # base.scatter(dim, idx, values): selected entries replaced by `values`, the rest kept
+            v = a[-1]
+            if isinstance(v, S) and v.op == "kw":
+                v = v.args[1]
+            go(a[0], sign, path + ((s.id, "sel", 0),), reduced, part, guards, d)
+            if isinstance(v, S):
+                go(v, sign, path + ((s.id, "sel", 1),), reduced, part, guards, d)
+            return
         if fn == "torch.where" and len(a) == 4:
             for i, k in enumerate(a[1:]):
                 go(k, 0, path + ((s.id, "sel", i),), reduced, part, guards, d)
@@ -595,7 +614,7 @@ def _connective(s: S):
         return "and", list(a)
     if fn == "torch.logical_and":
         return "and", list(a[1:3])
-    if o in ("|", "or") or (o == "+" and _is_boolish(a[0]) and _is_boolish(a[1])):
+    if o in ("|", "or") or (o == "+" and (_is_boolish(a[0]) or _is_boolish(a[1]))):
         return "or", list(a)
     if fn == "torch.logical_or":
         return "or", list(a[1:3])
@@ -654,6 +673,15 @@ def kleene(s: S, assume, sign=+1, depth=0):
                 return ret(True)
             if all(x is False for x in vals):
                 return ret(False)
+        return None
+    if o == "meth" and a[1] in ("masked_fill", "masked_fill_") and len(a) == 4 and is_const(a[3]):
+        basev = kleene(a[0], assume, +1, d)
+        fillv = bool(a[3].args[0])
+        if basev is not None and basev != fillv:
+            c = kleene(a[2], assume, +1, d)
+            return ret(None if c is None else (c if fillv else (not c)))
+        if basev is not None:
+            return ret(basev)
         return None
     if o == "sub":
         return kleene(a[0], assume, sign, d)
